@@ -5,6 +5,8 @@
 // archive once and issues a seeded history of listing, lookup, stream, extraction and resource-manager calls against the small
 // members. Nothing multi-GiB is ever read or written: only holes are that large.
 #include "volworld.h"
+#include "../models/refclm.h"
+#include "Archive/ClmFile.h"
 #include "ResourceManager.h"
 #include "Archive/VolFile.h"
 #include <memory>
@@ -27,13 +29,16 @@ const uint64_t kTargets[] = {
 struct VolGiant : Family {
 	std::string name() const override { return "vol-giant"; }
 
-	Plan generate(const std::string&, Rng& r, bool) override {
+	Plan generate(const std::string& prop, Rng& r, bool) override {
 		Plan p;
 		swarmEnv(p, r, true, true);
 		p.setenv("readdir", r.next() | 1);
 		Line w = mkline("world", "giant");
 		size_t nt = sizeof kTargets / sizeof kTargets[0];
-		w.set("target", hex64(kTargets[g_genIndex % nt])).set("seed", hex64(r.next())).set("lenA", r.chance(1, 4) ? r.below(4) : r.below(400)).set("lenZ", r.chance(1, 4) ? r.below(4) : r.below(600)).set("second", r.below(2));
+		static const uint64_t kClmTargets[] = {0x7FFFFFF0ull, 0x7FFFFFFFull, 0x80000000ull, 0x80000001ull, 0xFFFFFD00ull, 0xC0000001ull};
+		bool clm = prop != "C02" && (g_genIndex / nt) % 3 == 2; // every third pass over the target list is a CLM
+		if (clm) w.set("kind", "clm");
+		w.set("target", hex64(clm ? kClmTargets[g_genIndex % 6] : kTargets[g_genIndex % nt])).set("seed", hex64(r.next())).set("lenA", r.chance(1, 4) ? r.below(4) : r.below(400)).set("lenZ", r.chance(1, 4) ? r.below(4) : r.below(600)).set("second", r.below(2));
 		p.world.push_back(w);
 		size_t nops = static_cast<size_t>(r.range(4, 24));
 		for (size_t i = 0; i < nops; ++i) {
@@ -57,6 +62,9 @@ struct VolGiant : Family {
 		uint64_t target = 0, seed = 1, lenA = 0, lenZ = 0;
 		bool second = false;
 		for (auto& l : plan.world) if (l.verb == "giant") { target = l.u("target"); seed = l.u("seed", 1); lenA = l.u("lenA"); lenZ = l.u("lenZ"); second = l.u("second") != 0; }
+		bool isClm = false;
+		for (auto& l : plan.world) if (l.verb == "giant" && l.get("kind") == "clm") isClm = true;
+		if (isClm) { executeClm(plan, ctx, target, seed, lenA, lenZ, clListing, clBytes); return; }
 		if (target < 0x1000 || (target & 3) || target > 0xFFFFFFFCull || lenA > 4096 || lenZ > 4096) throw std::runtime_error("bad giant world");
 		Rng r(seed);
 		// names sort in the listed order: a..., f0.., f1.., z0..., z1...
@@ -169,6 +177,85 @@ struct VolGiant : Family {
 		ctx.nontrivial = true;
 		ctx.count("library_calls", plan.ops.size() + 1);
 	}
+	// A sparse CLM: track "a" (small), track "f" (a multi-GiB hole), track "z" (small) whose data offset is the target.
+	void executeClm(const Plan& plan, RunCtx& ctx, uint64_t target, uint64_t seed, uint64_t lenA, uint64_t lenZ, const std::string& clListing, const std::string& clBytes) {
+		if (target < 0x10000 || target > 0xFFFFFFFFull || lenA > 4096 || lenZ > 4096 || target + lenZ > 0xFFFFFFFFull) throw std::runtime_error("bad giant clm world");
+		Rng r(seed);
+		ref::WaveFormat fmt;
+		std::vector<ref::ClmMember> ms(3);
+		ms[0].name = "a" + randName(r, 1, 6, false); ms[0].data = prngBytes(r.next(), static_cast<size_t>(lenA));
+		ms[1].name = "f" + randName(r, 1, 6, false);
+		ms[2].name = "z" + randName(r, 1, 6, false);
+		std::vector<uint8_t> zdata = prngBytes(r.next(), static_cast<size_t>(lenZ));
+		std::vector<uint8_t> head = ref::encodeClm(fmt, ms).bytes; // header + index + track a
+		const uint64_t H = 60 + 16 * 3, fOff = H + lenA, fLen = target - fOff;
+		auto poke32 = [&](size_t off, uint64_t v) { for (int i = 0; i < 4; ++i) head[off + static_cast<size_t>(i)] = static_cast<uint8_t>(v >> (8 * i)); };
+		poke32(60 + 16 * 1 + 8, fOff); poke32(60 + 16 * 1 + 12, fLen);
+		poke32(60 + 16 * 2 + 8, target); poke32(60 + 16 * 2 + 12, lenZ);
+		const char* kDir = "_g";
+		std::string path = std::string(kDir) + "/big.clm";
+		disk::putPieces(path, {{0, head}, {target, zdata}}, target + lenZ);
+		ctx.count(target >= (1ull << 31) ? "probe.clm_track_beyond_2GiB" : "probe.clm_track_below_2GiB");
+		ctx.schedNote("clm" + hex64(target));
+		std::unique_ptr<Archive::ClmFile> clm;
+		std::string what;
+		ctx.setOp(0);
+		Out o = callLib(plan, [&] { clm = std::make_unique<Archive::ClmFile>(path); }, &what);
+		if (o != OkOut) ctx.fail(clListing, "opening a format-conforming " + std::to_string(target + lenZ) + "-byte clump (last track at data offset " + hex64(target) + ") failed: " + what);
+		std::unique_ptr<ResourceManager> rm;
+		const size_t smalls[] = {0, 2};
+		const std::vector<uint8_t>* datas[] = {&ms[0].data, nullptr, &zdata};
+		const uint64_t lens[] = {lenA, fLen, lenZ}, offs[] = {H, fOff, target};
+		for (size_t oi = 0; oi < plan.ops.size(); ++oi) {
+			const Line& op = plan.ops[oi];
+			ctx.setOp(oi);
+			size_t mi = smalls[static_cast<size_t>(op.u("who", 0)) % 2];
+			const std::vector<uint8_t>& want = *datas[mi];
+			std::string q = caseVariant(ms[mi].name, op.u("case", 0));
+			std::string where = "track " + std::to_string(mi) + " '" + ms[mi].name + "' (data offset " + hex64(offs[mi]) + ", " + std::to_string(want.size()) + " bytes)";
+			if (op.verb == "listing") {
+				for (size_t i = 0; i < 3; ++i) {
+					std::string nm; uint32_t sz = 0;
+					o = callLib(plan, [&] { nm = clm->GetName(i); sz = clm->GetSize(i); }, &what);
+					if (o != OkOut || nm != ms[i].name || sz != lens[i] || clm->GetCount() != 3) ctx.fail(clListing, "listing of track " + std::to_string(i) + " gives '" + nm + "', size " + std::to_string(sz) + "; the clump records '" + ms[i].name + "', " + std::to_string(lens[i]) + " (" + what + ")");
+				}
+				ctx.event("listing");
+			} else if (op.verb == "lookup") {
+				size_t idx = SIZE_MAX; bool has = false;
+				o = callLib(plan, [&] { has = clm->Contains(q); idx = clm->GetIndex(q); }, &what);
+				if (o != OkOut || !has || idx != mi) ctx.fail(clListing, "lookup of '" + q + "' gives " + std::to_string(idx) + " (" + what + "); it is " + where);
+				ctx.event("lookup");
+			} else if (op.verb == "stream" || op.verb == "resource") {
+				std::vector<uint8_t> got; bool none = false;
+				bool viaRm = op.verb == "resource";
+				if (viaRm && !rm) {
+					o = callLib(plan, [&] { rm = std::make_unique<ResourceManager>(kDir); }, &what);
+					if (o != OkOut) ctx.fail(clBytes, "constructing a ResourceManager over the directory of the clump failed: " + what);
+				}
+				o = callLib(plan, [&] {
+					std::unique_ptr<Stream::BidirectionalReader> s = viaRm ? rm->GetResourceStream(q, true) : op.u("byname") ? static_cast<Archive::ArchiveFile&>(*clm).OpenStream(q) : clm->OpenStream(mi);
+					if (!s) { none = true; return; }
+					uint64_t len = s->Length();
+					if (len > (1u << 20)) { got.assign(1, 0); got.resize(static_cast<size_t>(want.size() + 1)); return; }
+					got.resize(static_cast<size_t>(len));
+					s->Read(got.data(), got.size());
+				}, &what);
+				if (o != OkOut || none || got != want) ctx.fail(clBytes, std::string(viaRm ? "GetResourceStream" : "OpenStream") + " of " + where + (none ? " returned nothing" : o != OkOut ? " failed: " + what : " delivers other bytes"));
+				ctx.event(op.verb + std::to_string(mi));
+			} else if (op.verb == "extract") {
+				std::string dest = "_x/e" + std::to_string(oi) + ".wav";
+				o = callLib(plan, [&] { if (op.u("byname")) static_cast<Archive::ArchiveFile&>(*clm).ExtractFile(q, dest); else clm->ExtractFile(mi, dest); }, &what);
+				std::vector<uint8_t> f;
+				std::string problem = o != OkOut ? "failed: " + what : !disk::get(dest, f) ? "left no file" : ref::checkExtractedWav(f, fmt, want);
+				if (!problem.empty()) ctx.fail(clBytes, "ExtractFile of " + where + " " + problem);
+				ctx.event("extract " + std::to_string(mi));
+			} else throw std::runtime_error("unknown op " + op.verb);
+		}
+		{ Armed a; rm.reset(); clm.reset(); }
+		ctx.nontrivial = true;
+		ctx.count("library_calls", plan.ops.size() + 1);
+	}
+
 	std::string signatureDetail(const Plan& p, const Violation& v) override { return v.opIndex < p.ops.size() ? p.ops[v.opIndex].verb : ""; }
 };
 FamilyRegistrar regVolGiant(new VolGiant);
